@@ -454,7 +454,7 @@ def check_c08(c, quarantine=()):
             exact = c.r_max is None or c.r_max <= c.proj
             if exact and 'F17' in quarantine and c.proj != day(c.proj) and c.r_max is not None and c.r_max.date() == c.proj.date():
                 exact = False
-            if exact and rows:
+            if exact and rows and all((c.cap(rn, d) or 0) > 0 for _, _, d, _ in rows):
                 first_i, _, first_d, _ = rows[0]
                 cap0 = c.cap(rn, first_d)
                 before = c.booked(rn, first_d, upto_index=first_i - 1) if first_i > 0 else 0
@@ -513,7 +513,7 @@ def check_c09(c):
                 return V('C09', 'not-late-packed', f'{n} ({rn!r}) ends {t["end"]}, due {due}, but {d.date()} has {c.booked(rn, d)} of {cap} booked', c)
             d += _dt.timedelta(days=1)
             steps += 1
-        if rows:
+        if rows and all((c.cap(rn, dd) or 0) > 0 for _, _, dd, _ in rows):
             dates = [dd for _, _, dd, _ in rows]
             first, last = min(dates), max(dates)
             d = first + _dt.timedelta(days=1)
